@@ -132,3 +132,56 @@ func newDispatcherShape(fn *ast.FuncDecl, src func(ast.Node) string) (bool, stri
 	}
 	return true, "one sender per participant other than self"
 }
+
+// phaserSource reads which configuration field startDKGExecution (internal/dkg/execution.go)
+// passes to dkg.NewTimePhaser and renders it as the Coq term [phaser_source].
+func phaserSource(repo string) (term string, descr string, err error) {
+	path := filepath.Join(repo, "internal", "dkg", "execution.go")
+	fset := token.NewFileSet()
+	f, err := parser.ParseFile(fset, path, nil, 0)
+	if err != nil {
+		return "", "", fmt.Errorf("T-break: %s: %w", path, err)
+	}
+	var calls []string
+	found := false
+	for _, d := range f.Decls {
+		fn, ok := d.(*ast.FuncDecl)
+		if !ok || fn.Body == nil || fn.Name.Name != "startDKGExecution" {
+			continue
+		}
+		found = true
+		ast.Inspect(fn.Body, func(n ast.Node) bool {
+			c, ok := n.(*ast.CallExpr)
+			if !ok {
+				return true
+			}
+			var sb strings.Builder
+			_ = printer.Fprint(&sb, fset, c.Fun)
+			if strings.HasSuffix(sb.String(), "NewTimePhaser") || strings.HasSuffix(sb.String(), "NewTimePhaserFunc") {
+				var ab strings.Builder
+				for i, a := range c.Args {
+					if i > 0 {
+						ab.WriteString(", ")
+					}
+					_ = printer.Fprint(&ab, fset, a)
+				}
+				calls = append(calls, sb.String()+"("+strings.Join(strings.Fields(ab.String()), "")+")")
+			}
+			return true
+		})
+	}
+	if !found {
+		return "", "", fmt.Errorf("T-break: %s: startDKGExecution not found", path)
+	}
+	descr = "DPhaser startDKGExecution: " + strings.Join(calls, "; ")
+	if len(calls) != 1 {
+		return "PhOther", descr, nil
+	}
+	switch calls[0] {
+	case "dkg.NewTimePhaser(d.config.TimeBetweenDKGPhases)":
+		return "PhTimeBetweenDKGPhases", descr, nil
+	case "dkg.NewTimePhaser(d.config.KickoffGracePeriod)":
+		return "PhKickoffGracePeriod", descr, nil
+	}
+	return "PhOther", descr, nil
+}
